@@ -30,17 +30,24 @@ func vpIter(api int, r io.Reader, fn func(vpIt) bool) {
 	}
 }
 
-func vpIterFile(api int, path string, fn func(vpIt) bool) {
-	for b, err := range File(path) {
-		it := vpIt{err: err != nil}
-		if err == nil {
-			it.key = vpKey(b)
-		}
-		if !fn(it) {
-			break
+// vpFileRunner takes ONE File(path) iterator value and returns a function that
+// ranges over that same value each time it is called.
+func vpFileRunner(api int, path string) func(fn func(vpIt) bool) {
+	seq := File(path)
+	return func(fn func(vpIt) bool) {
+		for b, err := range seq {
+			it := vpIt{err: err != nil}
+			if err == nil {
+				it.key = vpKey(b)
+			}
+			if !fn(it) {
+				break
+			}
 		}
 	}
 }
+
+func vpIterFile(api int, path string, fn func(vpIt) bool) { vpFileRunner(api, path)(fn) }
 
 func vpRawOK(c byte) bool { return true }
 
